@@ -265,7 +265,7 @@ theorem Ty.framedFull (m : Mode) : ∀ (t : Ty), t.wf = true → ∀ v, t.wt v =
   | .range k t, hw => by
       intro v hwt pos rest ha
       simp only [Ty.wf, Bool.and_eq_true] at hw
-      have ih := Ty.framedFull m t hw.1.1
+      have ih := Ty.framedFull m t hw.1.1.1
       cases v with
       | record fs =>
         cases k with
